@@ -24,6 +24,7 @@ pub struct VacantEntry<'a, P, T> {
 pub struct OccupiedEntry<'a, P, T> {
     pub(super) node: &'a mut Node<P, T>,
     pub(super) prefix: P, // needed to replace the prefix on the thing if we perform insert.
+    pub(super) count: &'a mut usize, // the map's entry counter, needed by `remove`.
 }
 
 impl<P, T> Entry<'_, P, T> {
@@ -414,7 +415,9 @@ impl<P, T> OccupiedEntry<'_, P, T> {
     /// # fn main() {}
     /// ```
     pub fn remove(&mut self) -> T {
-        self.node.value.take().unwrap()
+        let value = self.node.value.take().unwrap();
+        *self.count -= 1;
+        value
     }
 }
 
